@@ -10,7 +10,7 @@
 EXTENDS Layout
 
 CONSTANTS PixVariants,   \* subset of 1..9, see Pix below
-          HeadVariants,  \* subset of 1..5, see HeadOf below
+          HeadVariants,  \* subset of 1..8, see HeadOf below
           WithPreamble   \* set of BOOLEAN
 
 P(tag, vr, dl, salt) == [k |-> "P", tag |-> tag, vr |-> vr, dl |-> dl, salt |-> salt]
@@ -39,11 +39,19 @@ Mixed(lm) ==
       I("E", <<Rows, X(<<F(0, 0), F(2, 1)>>)>>),
       I("E", <<UidEl(7), S(<<64, 629>>, "U", <<I("E", <<Rows, S(<<114, 128>>, "U", <<>>)>>)>>)>>)>>)
 LastItemU == S(<<114, 128>>, "E", <<I("E", <<Rows>>), I("U", <<Rows>>)>>)
+(* icon images: a sequence right before the root Pixel Data whose items each end with pixel  *)
+(* data of their own (encapsulated "X" or native "N")                                        *)
+IconX(s) == I("U", <<Rows, X(<<F(4, s), F(2, s + 1)>>)>>)
+IconN(s) == I("E", <<Rows, P(PixelTag, "OW", 4, s)>>)
+Icons(items) == S(<<136, 512>>, "U", items)
 HeadOf(v) == CASE v = 1 -> <<Modality, PatName, PatId, Rows>>
                [] v = 2 -> <<Modality, SeqEl("U"), PatName>>
                [] v = 3 -> <<Modality, SeqEl("E"), PatName>>
                [] v = 4 -> <<Modality, Mixed("E"), PatName, LastItemU>>
                [] v = 5 -> <<Modality, Mixed("U"), PatName, LastItemU>>
+               [] v = 6 -> <<Modality, PatName, Icons(<<IconX(11), IconN(13), IconX(15)>>)>>
+               [] v = 7 -> <<Modality, PatName, Icons(<<IconX(11), IconX(15)>>)>>
+               [] v = 8 -> <<Modality, PatName, Icons(<<IconN(13), IconX(15)>>)>>
 Heads == {HeadOf(v) : v \in HeadVariants}
 
 Pix(v) == CASE v = 1 -> <<>>                                     \* no pixel data
@@ -65,6 +73,6 @@ RECURSIVE SetToSeq(_)
 SetToSeq(s) == IF s = {} THEN <<>> ELSE LET x == CHOOSE y \in s : TRUE IN <<x>> \o SetToSeq(s \ {x})
 AllFiles == SetToSeq(FileSet)
 (* stop tags: every attribute of the root data set, tags between and beyond *)
-AllStops == {<<8, 96>>, <<8, 4416>>, <<16, 0>>, <<16, 32>>, <<40, 16>>, <<114, 128>>, PixelTag, <<65532, 65532>>}
+AllStops == {<<8, 96>>, <<8, 4416>>, <<16, 0>>, <<16, 32>>, <<40, 16>>, <<114, 128>>, <<136, 512>>, PixelTag, <<65532, 65532>>}
 QuickStops == {<<8, 4416>>, <<16, 0>>, PixelTag, <<65532, 65532>>}
 =============================================================================
